@@ -494,8 +494,17 @@ class Interp:
                 self.exec_block(st.body)
         elif isinstance(st, (ast.Expr, ast.Assert, ast.Pass)):
             if isinstance(st, ast.Expr) and isinstance(st.value, ast.Call):
-                # side-effecting self.method() calls (e.g. _precompute_alphasets) are modelled by the caller
-                pass
+                c = st.value
+                # list.append / list.extend on a local list value; externals are evaluated for their effect;
+                # other side-effecting calls (self._precompute_alphasets(...), log.warning) are not modelled
+                if isinstance(c.func, ast.Attribute) and c.func.attr in ("append", "extend") and isinstance(c.func.value, ast.Name) and isinstance(self.env.get(c.func.value.id), list):
+                    v = self.eval(c.args[0])
+                    if c.func.attr == "append":
+                        self.env[c.func.value.id].append(v)
+                    else:
+                        self.env[c.func.value.id].extend(v)
+                elif A.call_attr(c) in self.externals:
+                    self.eval(c)
         elif isinstance(st, ast.FunctionDef):
             self.env[st.name] = Closure(st, self)
         elif isinstance(st, ast.Raise):
@@ -529,8 +538,10 @@ class Interp:
             if v.is_const():
                 return v.const_value() != 0
             raise Undecided(f"truth value of symbolic {v}")
-        if isinstance(v, (list, tuple, str)):
+        if isinstance(v, (list, tuple, str, dict)):
             return bool(v)
+        if isinstance(v, (Obj, Closure, PyFunc)):
+            return True
         raise Undecided("truth value")
 
     def binop(self, op, a, b):
@@ -755,9 +766,18 @@ class Interp:
                 recv = self.eval(f.value)
             except Undecided:
                 recv = None
+            if "." + f.attr in self.externals and recv is not None:
+                xa = [self.eval(a) for a in e.args]
+                xk = {k.arg: self.eval(k.value) for k in e.keywords if k.arg}
+                return self.externals["." + f.attr](recv, xa, xk)
             if isinstance(recv, Obj):
                 xa = [to_poly(self.eval(a)) for a in e.args]
                 return fn(f.attr, Poly.atom(recv.name), *xa)
+            if isinstance(recv, dict) and f.attr in ("get", "pop", "setdefault"):
+                k = self.eval(e.args[0])
+                if k in recv:
+                    return recv[k]
+                return self.eval(e.args[1]) if len(e.args) > 1 else None
         # closures and inlined methods
         if isinstance(f, ast.Name) and isinstance(self.env.get(f.id), Closure):
             clo = self.env[f.id]
@@ -877,7 +897,7 @@ class Interp:
         if name in ("list", "tuple"):
             s = ev(args[0]) if args else []
             if isinstance(s, (list, tuple)):
-                return list(s)
+                return list(s) if name == "list" else tuple(s)
             raise Undecided("list()")
         if name == "bool":
             return self.truth(ev(args[0]))
